@@ -3,8 +3,10 @@ C09 helper: renders abstract MOF compile sessions (spec/MofCompile.tla) to real
 MOF text / files, runs them through the real compiler under a watchdog and
 projects what happened to monomorphic JSON events for TLC.
 
-A session is {"main": [prod..], "inc": [prod..], "api": .., "handle": ..}
-with prod = {"k": kind, "d": defect class, "v": variant, "a": int}.
+A session is {"main": [prod..], "inc": [prod..], "good": [prod..], "api": ..,
+"handle": ..} with prod = {"k": kind, "d": defect class, "v": variant,
+"a": int}; "good" = productions appended to the valid text compiled
+afterwards on the same compiler object (session part F).
 
   api     string   MOFCompiler.compile_string(text, ns)
           file     MOFCompiler.compile_file(path, ns)
@@ -80,6 +82,10 @@ class Rendered:
         self.search_paths = []
         self.rules = []           # stub rules
         self.notes = []
+        self.good_text = None     # valid text of the good call (None: GOOD)
+        self.good_classes = []    # classes the good text defines / pulls in
+        self.good_inst = None     # class of the instance it creates
+        self.other_full = False   # OTHER_NS must hold the prelude objects
 
 
 class Hang(BaseException):
@@ -206,6 +212,7 @@ class Renderer:
         "real_overflow": ("real32", False, "1.0e999"),
         "bool_for_int": ("uint8", False, "true"),
         "huge_digits": ("uint64", False, "1" * 5000),
+        "real_huge_int": ("real32", False, "1" * 400),
     }
     # property of class Types holding a value of that type
     TYPEPROP = {"uint8": "n", "uint64": "big", "uint16": "n", "datetime": "d",
@@ -326,8 +333,21 @@ class Renderer:
             elif v == "unknown_refclass":
                 head, sup = "[Association] ", ""
                 body = "[Key] Nope%s REF x; [Key] Base REF y;" % tag
+                if p["a"] == 3:
+                    body = "[Key] Nope%s REF x; [Key] %s REF y;" % (
+                        tag, self.anycase(name))
+                elif p["a"] == 4:
+                    body = ("[Key] Base REF x; [Key] Base REF y; "
+                            "uint32 m(Nope%s REF p);" % tag)
+                body += self.sibling(p["a"], name)
             elif v == "unknown_embclass":
                 body = '[EmbeddedInstance("Nope%s")] string e2;' % tag
+                if p["a"] == 3:
+                    body += " %s REF z;" % self.anycase(name)
+                elif p["a"] == 4:
+                    body = ('uint32 m([EmbeddedInstance("Nope%s")] string p);'
+                            % tag)
+                body += self.sibling(p["a"], name)
             elif v == "super_in_searchpath":
                 sup = " : SP%s" % tag
                 keymode = "base"
@@ -358,6 +378,39 @@ class Renderer:
         self.prev = (name, keymode)
         return toks("%s%s %s%s%s { %s };" % (head, kw("class"), name, alias,
                                              sup, body))
+
+    def sibling(self, a, name):
+        """Sibling element of unusual shape next to an unresolved REF /
+        EmbeddedInstance class (SibShapes of the spec; 3 and 4 change the
+        unresolved element itself)."""
+        return {1: " [EmbeddedInstance] string e3;",
+                2: ' [EmbeddedInstance("%s")] string e3;' % self.anycase(name),
+                5: " uint32 m5([EmbeddedInstance] string p);",
+                6: ' [EmbeddedInstance("Base")] uint8 e3;'}.get(a, "")
+
+    def retry(self, p, tag, name):
+        """Valid production of the good text that depends on class `name`
+        (the class the session failed to declare; a valid declaration of it
+        is on the search path)."""
+        v, kw = p["v"], self.kw
+        nm = {0: name, 1: name.lower(), 2: name.upper()}[p["a"]]
+        user = "U%s" % tag
+        if v == "of_failed":
+            self.out.good_inst = name
+            return toks('%s %s %s { k = %d; s = "retry"; };' % (
+                kw("instance"), kw("of"), nm, self.nextkey()))
+        self.out.good_classes.append(user)
+        if v == "ref_failed":
+            s = "[Association] %s %s { [Key] %s REF a; [Key] Base REF b; };"
+        elif v == "emb_failed":
+            s = '%s %s : Base { [EmbeddedInstance("%s")] string e; };'
+        elif v == "param_failed":
+            s = "%s %s : Base { uint32 m(%s REF p); };"
+        elif v == "sub_failed":
+            return toks("%s %s : %s { string u; };" % (kw("class"), user, nm))
+        else:
+            raise KeyError("retry %r" % v)
+        return toks(s % (kw("class"), user, nm))
 
     def instance(self, p, tag):
         d, v = p["d"], p["v"]
@@ -482,6 +535,9 @@ class Renderer:
         if d == "none" and v == "locale":
             return self.pragma("locale", "en_US", v)
         param = self.NSVAL.get(v, NS)
+        if d == "none" and v == "other_full":
+            param = OTHER_NS
+            self.out.other_full = True
         name = self.rng.choice(["namespace", "Namespace", "NAMESPACE"])
         return self.pragma(name, param, v)
 
@@ -503,6 +559,19 @@ class Renderer:
             target = os.path.join(os.path.dirname(here),
                                   "incé%s.mof" % tag)
         param = self.incref(target, here) if v != "empty_name" else ""
+        if p["a"] in (1, 2, 3) and v in ("self", "mutual", "inc2"):
+            # PathSpell of the spec: a relative path with a redundant
+            # component (relative to the including file; for string input the
+            # cwd, which is the directory of the main text)
+            hdir = os.path.dirname(here)
+            rel = os.path.relpath(target, hdir)
+            if p["a"] == 1:
+                param = "./" + rel
+            elif p["a"] == 2:
+                os.makedirs(os.path.join(hdir, "d%s" % tag), exist_ok=True)
+                param = "d%s/../%s" % (tag, rel)
+            else:
+                param = "../%s/%s" % (os.path.basename(hdir), rel)
         name = self.rng.choice(["include", "Include", "INCLUDE"])
         return self.pragma(name, param, v)
 
@@ -668,6 +737,18 @@ class Renderer:
             out.texts.append({"fid": 0, "text": out.text})
         for emb in self.embedded:
             out.texts.append({"fid": 0, "text": emb})
+        if ses.get("good"):
+            # part F: the class the main text failed to declare is available
+            # in valid form on the search path; the good text depends on it
+            name = self.prev[0] if self.prev else "Types"
+            if self.prev:
+                self.write_sp("%s.mof" % name,
+                              "class %s : Base { string sp; };\n" % name)
+                out.good_classes.append(name)
+            self.upper = False
+            ext = [self.join(self.retry(p, "9%d" % (i + 1), name))
+                   for i, p in enumerate(ses["good"])]
+            out.good_text = GOOD + "\n".join(ext) + "\n"
         return out
 
 
@@ -871,13 +952,14 @@ GOOD_LENS = [{"fid": 0, "lens": [len(x) for x in GOOD.split("\n")]}]
 class Target:
     """A compiler object + its repository, for one handle type."""
 
-    def __init__(self, handle, search_paths=None):
+    def __init__(self, handle, search_paths=None, other_full=False):
         import pywbem
         import pywbem_mock
         self.handle = handle
         self.stub = None
         self.conn = None
         self.comp = None
+        self.search_paths = search_paths
         if handle == "mofwbem":
             self.repo = pywbem.MOFWBEMConnection()
             self.comp = pywbem.MOFCompiler(self.repo, log_func=None,
@@ -896,6 +978,24 @@ class Target:
                                                search_paths=search_paths)
         else:
             raise KeyError(handle)
+        if other_full:
+            # OTHER_NS holds the prelude objects, put there by ANOTHER
+            # compiler object: the compiler under test has never seen it
+            if handle == "mockapi":
+                self.conn.compile_mof_string(PRELUDE, OTHER_NS)
+            else:
+                pywbem.MOFCompiler(
+                    self.conn if self.conn is not None else self.repo,
+                    log_func=None).compile_string(PRELUDE, OTHER_NS)
+
+    def new_compiler(self):
+        """Replace the compiler object by a new one on the same repository."""
+        import pywbem
+        if self.comp is not None:
+            self.comp = pywbem.MOFCompiler(
+                self.stub if self.stub is not None else
+                self.conn if self.conn is not None else self.repo,
+                log_func=None, search_paths=self.search_paths)
 
     def compile(self, api, text, path):
         if self.handle == "mockapi":
@@ -906,8 +1006,9 @@ class Target:
         else:
             self.comp.compile_string(text, NS)
 
-    def dump_good(self):
-        """Canonical dump of the objects GOOD defines."""
+    def dump_good(self, classes=(), inst=None):
+        """Canonical dump of the objects the good text defines: those of GOOD,
+        the classes named `classes` and the instances of class `inst`."""
         import cimcanon
         try:
             if self.conn is not None:
@@ -916,17 +1017,23 @@ class Target:
                     [i for i in c.EnumerateInstances(
                         "Types", namespace=NS, DeepInheritance=False)
                      if i["k"] == 2]
+                if inst:
+                    insts += c.EnumerateInstances(inst, namespace=NS,
+                                                  DeepInheritance=False)
                 for i in insts:
                     i.path.host = None
-                items = [c.GetQualifier("GQ", namespace=NS),
-                         c.GetClass("GA", namespace=NS, LocalOnly=True,
-                                    IncludeQualifiers=True)] + insts
+                items = [c.GetQualifier("GQ", namespace=NS)] + \
+                    [c.GetClass(n, namespace=NS, LocalOnly=True,
+                                IncludeQualifiers=True)
+                     for n in ["GA"] + list(classes)] + insts
             else:
                 r = self.repo
-                items = [r.qualifiers[NS]["GQ"], r.classes[NS]["GA"]]
+                items = [r.qualifiers[NS]["GQ"]] + \
+                    [r.classes[NS][n] for n in ["GA"] + list(classes)]
                 items += [i for i in r.instances.get(NS, [])
                           if i.classname.lower() == "ga" or
-                          (i.classname.lower() == "types" and i["k"] == 2)]
+                          (i.classname.lower() == "types" and i["k"] == 2) or
+                          (inst and i.classname.lower() == inst.lower())]
             return cimcanon.digest(sorted(repr(cimcanon.canon(x))
                                           for x in items))
         except Exception as exc:  # noqa
@@ -950,6 +1057,31 @@ def reference(handle):
     return _REF[handle]
 
 
+def reference_same_history(ses, r, timeout):
+    """Part F: the good text of the session names a class the session itself
+    dealt with, so what "a fresh compiler gives" depends on what the failed
+    compile left in the REPOSITORY (MOFWBEMConnection.CreateClass keeps a
+    class whose REF classes are missing - state of the repository, not of the
+    compiler).  The reference is therefore a fresh compiler OBJECT on a
+    repository with the same history: a second repository of the same kind
+    goes through PRELUDE and the session with one compiler object, then a new
+    MOFCompiler on that repository compiles the good text."""
+    t = Target(ses["handle"], search_paths=r.search_paths or None,
+               other_full=r.other_full)
+    exc, _ = guarded(lambda: t.compile("string", PRELUDE, None), 60)
+    if exc is not None:
+        return "PRELUDE:" + type(exc).__name__, ""
+    if t.stub is not None:
+        t.stub.rules = [list(x) for x in r.rules]
+    guarded(lambda: t.compile(ses["api"], r.text, r.files[1]), timeout)
+    if t.stub is not None:
+        t.stub.rules = []
+    t.new_compiler()
+    exc, _ = guarded(lambda: t.compile("string", r.good_text, None), timeout)
+    return ("ok" if exc is None else type(exc).__name__,
+            t.dump_good(r.good_classes, r.good_inst) if exc is None else "")
+
+
 PRELUDE_LENS = [{"fid": 0, "lens": [len(x) for x in PRELUDE.split("\n")]}]
 
 
@@ -965,7 +1097,8 @@ def run_session(ses, seed, workdir, timeout=10.0, keep=False):
     blank = dict(digest="", refout="", refdigest="")
     try:
         os.chdir(workdir)
-        t = Target(handle, search_paths=r.search_paths or None)
+        t = Target(handle, search_paths=r.search_paths or None,
+                   other_full=r.other_full)
         exc, _ = guarded(lambda: t.compile("string", PRELUDE, None), 60)
         setup = project(exc, r)
         setup.update(call="setup", texts=PRELUDE_LENS, **blank)
@@ -984,11 +1117,20 @@ def run_session(ses, seed, workdir, timeout=10.0, keep=False):
         info["stublog"] = list(t.stub.log) if t.stub is not None else []
         if t.stub is not None:
             t.stub.rules = []
-        exc2, secs2 = guarded(lambda: t.compile("string", GOOD, None), timeout)
+        gtext = r.good_text if r.good_text is not None else GOOD
+        exc2, secs2 = guarded(lambda: t.compile("string", gtext, None),
+                              timeout)
         good = project(exc2, r)
-        refout, refdigest = reference(handle)
-        good.update(call="good", texts=GOOD_LENS,
-                    digest=t.dump_good() if exc2 is None else "",
+        refout, refdigest = reference(handle) if r.good_text is None \
+            else reference_same_history(ses, r, timeout)
+        glens = GOOD_LENS if r.good_text is None else \
+            [{"fid": 0, "lens": [len(x) for x in gtext.split("\n")]}] + \
+            [x for x in text_lens(r) if x["fid"] >= 3]
+        if r.good_text is not None:
+            info["good_text"] = gtext
+        good.update(call="good", texts=glens,
+                    digest=t.dump_good(r.good_classes, r.good_inst)
+                    if exc2 is None else "",
                     refout=refout, refdigest=refdigest)
         return {"events": [setup, bad, good], "info": info}
     finally:
